@@ -328,6 +328,11 @@ static void emit_function(raw_ostream& o, Function& F) {
   o << cdecl(F.getReturnType(), gname.at(&F) + "(" + ps + ")") << " {\n";
   // (a) assert-unreachable cuts: selected per query with -DVERIF_CUT_<NAME>; the solver must prove the function unreachable
   for (auto& c : cuts) {
+    if (F.getName().find(c.first) != StringRef::npos && StringRef(c.second).startswith("HAVOC_") && (F.getReturnType()->isDoubleTy() || F.getReturnType()->isIntegerTy(64))) {
+      // havoc stub (selected with -DVERIF_<NAME>): the function returns an arbitrary value of its type and has no side effect
+      o << "#if defined(VERIF_CBMC) && defined(VERIF_" << c.second << ")\n  { " << (F.getReturnType()->isDoubleTy() ? "double nondet_double(void); return nondet_double();" : "uint64_t nondet_u64(void); return nondet_u64();") << " }\n#endif\n";
+      continue;
+    }
     if (F.getName().find(c.first) != StringRef::npos) {
       o << "#if defined(VERIF_CBMC) && defined(VERIF_CUT_" << c.second << ")\n"
         << "  __CPROVER_assert(0, \"ENCODING-BOUND: cut function reached (" << c.second << ")\"); __CPROVER_assume(0); " << ret_zero(&F) << "\n#endif\n";
@@ -523,6 +528,18 @@ static void emit_function(raw_ostream& o, Function& F) {
       if (auto* cb = dyn_cast<CallBase>(&I)) {
         const Function* callee = cb->getCalledFunction();
         if (is_noise_intrinsic(callee)) {
+          if (auto* inv = dyn_cast<InvokeInst>(cb)) emit_goto(o, &bb, inv->getNormalDest(), cx, "  ");
+          continue;
+        }
+        if (callee && (callee->getIntrinsicID() == Intrinsic::umul_with_overflow || callee->getIntrinsicID() == Intrinsic::uadd_with_overflow || callee->getIntrinsicID() == Intrinsic::usub_with_overflow)) {
+          unsigned w = cb->getArgOperand(0)->getType()->getIntegerBitWidth();
+          std::string a = cexpr(cb->getArgOperand(0), &cx), b = cexpr(cb->getArgOperand(1), &cx), me = cx.names[&I], T = utype(w);
+          if (callee->getIntrinsicID() == Intrinsic::umul_with_overflow)
+            o << "  " << me << ".f0 = (" << T << ")((" << T << ")" << a << " * (" << T << ")" << b << "); " << me << ".f1 = (" << b << " != 0 && (" << T << ")(" << me << ".f0 / " << b << ") != " << a << ");\n";
+          else if (callee->getIntrinsicID() == Intrinsic::uadd_with_overflow)
+            o << "  " << me << ".f0 = (" << T << ")(" << a << " + " << b << "); " << me << ".f1 = (" << me << ".f0 < " << a << ");\n";
+          else
+            o << "  " << me << ".f0 = (" << T << ")(" << a << " - " << b << "); " << me << ".f1 = (" << a << " < " << b << ");\n";
           if (auto* inv = dyn_cast<InvokeInst>(cb)) emit_goto(o, &bb, inv->getNormalDest(), cx, "  ");
           continue;
         }
